@@ -672,6 +672,8 @@ SequenceOfLabelsGetSize(const uint8_t *buf, size_t buf_size, size_t *name_len_re
 	cur_pos = buf;
 	max_pos = (cur_pos + buf_size);
 	for (;;) {// перебираем все куски текста
+		if (cur_pos >= max_pos)
+			return (EBADMSG); /* Out of buf range. */
 		label = (*cur_pos);
 		cur_pos ++; // now it points to data
 		switch((label & SEQ_LABEL_CTRL_MASK)){
@@ -690,6 +692,8 @@ SequenceOfLabelsGetSize(const uint8_t *buf, size_t buf_size, size_t *name_len_re
 			(*name_len_ret) = (size_t)(cur_pos - buf);
 			return (0);// XXX if its wrong, then error will be generated in other place
 		case SEQ_LABEL_CTRL_COMPRESSED: //11------ // RFC 1035 4.1.4: 14 bits = offset from the start of the message
+			if (cur_pos >= max_pos)
+				return (EBADMSG); /* No low offset byte. */
 			(*name_len_ret) = (size_t)((cur_pos - buf) + 1); // 1 = 1 offset byte (low 8 bits of offset)
 			return (0);
 		}
